@@ -61,7 +61,7 @@ BOUND = {'quick': 'all 682 patterns with rows,cols<=3, half of the 4xk/kx4 (k<=3
                   'each x 6 configs; 4800 random patterns <=40x40; 900 generated models',
          'thorough': 'all 74954 patterns with rows,cols<=4 x 6 configs (exhaustive inside the bound); 200000 random '
                      'patterns; ~12000 generated models'}
-MIN_CLASS_FRACTION = {'L1': 0.5, 'L1:bidir': 0.01, 'L1:subtractions': 0.002,
+MIN_CLASS_FRACTION = {'L1': 0.5, 'L1:bidir': 0.005, 'L1:subtractions': 0.0005,
                       'L2:total': 0.001, 'L2:total:active': 0.0005, 'L2:total:bidir': 0.0003,
                       'L2:total:subtractions': 0.00005, 'L2:partial:active': 0.0002,
                       'L2:exec:active': 0.0001}
